@@ -9,6 +9,7 @@
 -/
 import SmrtVerif.Model.Split
 import SmrtVerif.Proofs.Split
+import SmrtVerif.Proofs.DortFlat
 import Mathlib.Tactic.Ring
 import Mathlib.Tactic.Linarith
 import Mathlib.Tactic.SplitIfs
@@ -201,5 +202,14 @@ theorem split_solution (hk : k < S.L) (hd : (S.lay k).d = d1 + d2) (x : Nat → 
         rfl
       rw [e', split_lay_lt S k d1 d2 hk0]
       rfl
+
+/-- **flat = block** (shared by C01–C05 and C08): the code assembles and solves one flat banded system whose dense meaning is `sysEntry`
+    / `rhsEntry` (corresponded entry by entry with `dort_modem_banded`); every theorem of the DORT group is stated on the per-layer
+    block form `Solves`.  Any solution of the flat system, cut at the layer offsets, is a solution of the block system - for every
+    stack in which each layer keeps at least one stream (the solver asserts at least two). -/
+theorem flat_solution_is_block_solution (hw : ∀ l, l < S.L → 0 < 2 * ((S.lay l).n * S.npol)) (xf : Nat → Nat → ℝ)
+    (h : ∀ r, r < nUnknown S → ∀ v, sumN (nUnknown S) (fun c => sysEntry S r c * xf c v) = rhsEntry S r v) :
+    Solves S (fun l j v => xf (off S l + j) v) :=
+  solvesFlat_solves S hw xf h
 
 end Smrt.Props.C04
